@@ -102,6 +102,14 @@ def _world(s, world_typed):
             s.append("                |w| m.write_unencrypted_%s(w)," % d)
             s.append("                |w| m.tokio_write_unencrypted_%s(w)," % d)
             s.append("                |w| m.astd_write_unencrypted_%s(w));" % d)
+            # the encrypting writers: a fresh cipher half from one fixed session key per run, so the
+            # three variants must emit the same bytes whatever the sink accepts per call
+            half = "halves!(%s_header).%d" % (e, 0 if d == "client" else 1)
+            s.append("            let m = &m;")
+            s.append("            drive_write(cx, \"enum_write_encrypted\",")
+            s.append("                |w| { let mut h = %s; m.write_encrypted_%s(w, &mut h) }," % (half, d))
+            s.append("                |w| async move { let mut h = %s; m.tokio_write_encrypted_%s(w, &mut h).await }," % (half, d))
+            s.append("                |w| async move { let mut h = %s; m.astd_write_encrypted_%s(w, &mut h).await });" % (half, d))
             s.append("        }")
             helper = "expect_client_message" if d == "client" else "expect_server_message"
             names = world_typed.get((e, d), [])
@@ -139,6 +147,23 @@ def generate(corpus, world_typed):
     s.append("#![allow(non_snake_case, unused_imports, clippy::all)]")
     s.append("use crate::chunks::{async_out, drive_read, drive_write, eq_dbg, eq_pe, login_writes, sig_login, sig_world, sync_out, Cx};")
     s.append("use crate::util::guarded;")
+    s.append("")
+    s.append("/// (client encrypter, server encrypter) of one fixed session key, built through the public handshake")
+    s.append("macro_rules! halves {")
+    s.append("    ($srp:ident) => {{")
+    s.append("        use wow_srp::normalized_string::NormalizedString;")
+    s.append("        use wow_srp::$srp::ProofSeed;")
+    s.append("        let user = NormalizedString::new(\"VERIF\").unwrap();")
+    s.append("        let key = [7u8; 40];")
+    s.append("        let (server_seed, client_seed) = (ProofSeed::new(), ProofSeed::new());")
+    s.append("        let (ss, cs) = (server_seed.seed(), client_seed.seed());")
+    s.append("        let (proof, client) = client_seed.into_client_header_crypto(&user, key, ss);")
+    s.append("        let server = server_seed.into_server_header_crypto(&user, key, proof, cs).unwrap();")
+    s.append("        let (ce, _cd) = client.split();")
+    s.append("        let (se, _sd) = server.split();")
+    s.append("        (ce, se)")
+    s.append("    }};")
+    s.append("}")
     s.append("")
     _login(s, corpus)
     _world(s, world_typed)
